@@ -367,7 +367,98 @@ def run_post(case):
     return res
 
 
-KINDS = {"syst": run_syst, "mult": run_mult, "rsyst": run_rsyst, "post": run_post}
+def run_rsyst_full(case):
+    """The COMPLETE offset partition (cells, ulp neighbours of breakpoints, offsets next to 0 and 1) through the real
+    Resampler.run(resample='syst'), for a block of weight vectors incl. exact zeros and in-tolerance deficits:
+    the pipeline call site must give the same index vector as the specification, not only the library routine."""
+    from tempest.steps.resample import Resampler
+    from tempest.state_manager import StateManager
+
+    res = Res()
+    n = case["n"]
+    for wl in case["ws"]:
+        w = np.array(wl, dtype=float)
+        m = len(w)
+        wt, renorm = ref.used_weights(w)
+        C = ref.cums(wt)
+        tau = F(n * (m + 4), 2 ** 52)
+        pos = [i for i in range(m) if wt[i] > 0]
+        if not pos:
+            continue
+        last_pos = pos[-1]
+        pts, cells, bps = _points(n, C, tau)
+        # pool of m distinct whole records in two batches
+        sizes = [m - m // 2, m // 2] if m > 1 else [1]
+        seen = set()
+        for u0, _ in pts:
+            if u0 in seen:
+                continue
+            seen.add(u0)
+            st = StateManager(1)
+            k = 0
+            U = np.array([[(i + 1.0) / (m + 1.0)] for i in range(m)])
+            for t, nt in enumerate([s_ for s_ in sizes if s_ > 0]):
+                u = U[k:k + nt]
+                st.update_current({"u": u, "x": 20 * u - 10, "logl": -(np.arange(k, k + nt) + 1.0), "beta": 0.0 if t == 0 else 0.5, "logz": 0.0, "iter": t + 1})
+                st.commit_current_to_history()
+                k += nt
+            st.set_current("beta", 0.5)
+            r = Resampler(st, n_particles=n, resample="syst", clusterer=None, clustering=False, have_blobs=False)
+
+            def h(t, *aa, **kk):
+                return u0 if not (aa or kk) else OwnedRandom.PASS
+
+            cc = {"kind": "rsyst_full", "n": n, "ws": [list(map(float, w))], "u0": u0}
+            if case.get("u0") is not None and case["u0"] != u0:
+                continue
+            with OwnedRandom(1, handlers={"random": h, "random_sample": h, "rand": h}):
+                try:
+                    r.run(w.copy())
+                except Exception as e:
+                    res.violate(f"rsyst:raises:{type(e).__name__}", f"Resampler.run(syst) raised {e!r} (n={n}, w={list(w)}, u0={u0!r})", cc)
+                    continue
+            res.evals += 1
+            res.trans += 1
+            cur = st._current
+            # recover the index vector from the (distinct) rows
+            idx = []
+            for row in np.asarray(cur["u"]):
+                j = int(round(float(row[0]) * (m + 1.0))) - 1
+                idx.append(j if 0 <= j < m and np.array_equal(row, U[j]) else -9)
+            out = np.array(idx)
+            if len(out) != n or np.any(out < 0):
+                res.violate("rsyst:rows", f"Resampler.run(syst) produced {len(out)} rows / rows that are not pool particles (n={n}, w={list(w)}, u0={u0!r})", cc)
+                continue
+            if not np.array_equal(np.asarray(cur["logl"]), -(out + 1.0)):
+                res.violate("rsyst:record", "resampled logl rows do not belong to the resampled u rows", cc)
+            zsel = [int(i) for i in set(out.tolist()) if wt[i] == 0.0]
+            if zsel:
+                res.violate("rsyst:zero-weight-selected", f"Resampler.run(syst): index {zsel[0]} has weight 0 but was selected (n={n}, w={list(w)}, u0={u0!r})", cc)
+                continue
+            lo, hi = ref.tooth_window(n, C, F(u0), tau, last_pos)
+            for i in range(n):
+                a, b, rr = lo[i], hi[i], int(out[i])
+                ok = (rr == last_pos) if a == -1 else ((a <= rr <= last_pos) if b == -1 else (a <= rr <= b))
+                if not ok:
+                    res.violate("rsyst:tooth", f"Resampler.run(syst): tooth {i} selected index {rr}, exact model allows [{a},{b}] (n={n}, w={list(w)}, u0={u0!r})", cc)
+                    break
+            res.outcome(("rsyst_full", n, m, tuple(out.tolist())), nontrivial=len(set(out.tolist())) > 1)
+        res.states += len(cells)
+    res.traces += 1
+    return res
+
+
+def run_session6(case):
+    """Operation sequences on one sampler object (iterate / save / load): the resampled set must always be drawn from the CURRENT pool."""
+    from checks import c07
+
+    r = c07.run_session(case)
+    r.viol = [v for v in r.viol if "not-from-pool" in v["key"]]
+    r.vcount = {k: c for k, c in r.vcount.items() if "not-from-pool" in k}
+    return r
+
+
+KINDS = {"rsyst_full": run_rsyst_full, "session": run_session6, "syst": run_syst, "mult": run_mult, "rsyst": run_rsyst, "post": run_post}
 
 
 # ---------------------------------------------------------------------------------------------
@@ -441,3 +532,21 @@ def plan(ctx):
                 mult.append({"kind": "post", "sizes": sizes, "blobs": blobs, "trim": trim})
     ctx.bounds.update({"pipeline_cases": len(mult)})
     ctx.explore("multinomial-and-pipeline", mult)
+    # the pipeline call site of systematic resampling over the complete offset partition
+    ws = []
+    for mm in (2, 3, 4):
+        for comp in compositions(12, mm):
+            if sum(1 for c in comp if c) == 0:
+                continue
+            base = np.array(comp, dtype=float) / 12.0
+            ws.append(base.tolist())
+            if comp[-1] == 0 or (hash(comp) + ctx.seed) % 4 == 0 or th:
+                ws.append((base * (1 - 1e-12)).tolist())
+                ws.append((base * (1 - 0.9 * ref.SQRTEPS)).tolist())
+    ws.append([0.1] * 10)
+    full = [{"kind": "rsyst_full", "n": nn, "ws": ws[i::12]} for nn in ((2, 3, 5, 8) if th else (2, 5)) for i in range(12)]
+    ctx.explore("resampler-call-site-partition", full)
+    from mc import session as _sess
+    cfg = dict(n_particles=8, d=1, ess_ratio=1.0, n_total=10 ** 6, eval="scalar", clustering=False)
+    ses = [{"kind": "session", "cfg": dict(cfg, resample=rs), "base": ctx.seed, "depth": 9, "patterns": [sh, 4]} for rs in ("mult", "syst") for sh in range(4)]
+    ctx.explore("session-sequences", ses)
